@@ -140,8 +140,10 @@ let () =
               Printf.printf "%s %s\n%s %s\n" id (string_of_bytes (Sqlite.obs_fmt_sqlite t)) id (string_of_bytes (Sqlite.obs_hcl_sqlite t))
             | "mysql" -> let t = mysql_ty ty in
               Printf.printf "%s %s\n%s %s\n" id (string_of_bytes (Mysql.obs_fmt_mysql t)) id (string_of_bytes (Mysql.obs_hcl_mysql t))
-            | "postgres" -> (* FormatType only *)
+            | "postgres" -> (* FormatType / ParseType / FormatType *)
               Printf.printf "%s %s\n" id (string_of_bytes (Pg.obs_fmt_pg (pg_ty ty)))
+            | "pgraw" -> (* ParseType of a raw text *)
+              Printf.printf "%s %s\n" id (string_of_bytes (Pg.obs_raw_pg (hb ty)))
             | d -> failwith ("dialect " ^ d))
         | _ -> failwith ("bad case line: " ^ line)
       end
